@@ -398,6 +398,17 @@ func ParseNameAddrPVal(h HdrT, buf []byte, offs int, pfrom *PFromBody) (int, Err
 				} else {
 					pfrom.state = fbNewPossibleParam
 				}
+			case ',':
+				if multipleValsOk(h) {
+					// end of value, more present: the params end at the
+					// saved name end (before the whitespace)
+					retOkErr = ErrHdrMoreValues
+					n = i
+					crl = 1
+					i = pfrom.pend
+					goto endOfHdr
+				}
+				return i, ErrHdrBadChar
 			default:
 				// no other char allowed after a param name token
 				// (the whitespace was already skipped in fb*ParamName)
@@ -491,6 +502,17 @@ func ParseNameAddrPVal(h HdrT, buf []byte, offs int, pfrom *PFromBody) (int, Err
 					pfrom.state = fbNewPossibleParam
 					setFromParamVal(buf, pfrom)
 				}
+			case ',':
+				if multipleValsOk(h) {
+					// end of value, more present: the params end at the
+					// saved value end (before the whitespace)
+					retOkErr = ErrHdrMoreValues
+					n = i
+					crl = 1
+					i = pfrom.vend
+					goto endOfHdr
+				}
+				return i, ErrHdrBadChar
 			default:
 				// no other char allowed after a param value token
 				return i, ErrHdrBadChar
